@@ -324,7 +324,10 @@ class FilterAnalyzer(desc.ResetMixin):
         # filtfilt only operates channel-by-channel, so we need to loop over
         # the channels, if the data is multi-channel data:
         if len(data.shape) > 1:
-            out_data = np.empty(data.shape, dtype=data.dtype)
+            # the filtered values are floating point also for integer data
+            # (as in the single-channel branch below):
+            out_data = np.empty(data.shape,
+                                dtype=np.result_type(data.dtype, float))
             for i in range(data.shape[0]):
                 out_data[i] = signal.filtfilt(b, a, data[i])
                 # Make sure to preserve the DC:
